@@ -116,6 +116,18 @@ CHECKS = {
         note="modelled not verified: bind() only fails with EADDRINUSE per a static busy set; getpwnam/getgrnam/resolv.conf are parameters; argparse dispatch.",
         design="DESIGN.md §5 C15",
         technique="Coq proof (total decision function with explicit Crash/OsError constructors proved unreachable; consistency by case analysis over the port search) + exhaustive cross-product correspondence"),
+
+    "C04": dict(
+        text=("14 obligations (Props/C04.v). Proved for every initial kernel state (foreign rules, other instances), every plan, every cut and every "
+              "fault set (nat/nft/tproxy): everything not named for the session's ports is unchanged and in order at every intermediate state; a cut "
+              "before GO issues no command; once no own object remains the final state is exactly the initial one; the chain-listing parse is exact "
+              "membership (sshuttle-1230 vs sshuttle-12300). The clause 'nothing own remains and a later session can start, for every k-th failing "
+              "command and every cut' is proved only as kernel-evaluated sweeps over stated sample plans and start states (…_all_exits_partial; the "
+              "general statement c04_all_exits_full is kept as an unproved Definition); as-found tproxy and pf/FreeBSD refuted with witnesses (F9, F17: "
+              "fixed; F41, F42: known findings). Tied to /repo by running the real firewall.main + real method modules with every external command answered by the extracted kernel model as a co-process, for every cut and every fault index."),
+        note="modelled not verified: iptables/nft/pfctl command semantics (DESIGN Appendix B; not validated against the real kernel in this check), SIGKILL/SIGTERM modelled as a dialogue cut. The all-exits clause is partial (finite sweeps with the bounds in the statements).",
+        design="DESIGN.md §5 C04",
+        technique="Coq proof (frame invariant over all command sequences; finite sweeps by vm_compute for the all-exits clause) + trace/state correspondence with fault injection at every command index"),
 }
 
 NOT_YET = {}
